@@ -243,6 +243,18 @@ fn case(ctx: &Ctx, rep: &mut Report, case_seed: u64, variant: u64, replay_pendin
 			drop(db);
 		}
 	}
+	// ---- creation race and spinning retries (own directories, before the long loops)
+	{
+		let mut msgs = vec![];
+		creation_race(ctx, rep, &work.path, &mut rng, &mut msgs);
+		if msgs.is_empty() {
+			spinning_retries(ctx, rep, &work.path, &mut rng, &mut msgs);
+		}
+		if !msgs.is_empty() {
+			report_c18(rep, &msgs, desc, case_seed, variant);
+			return
+		}
+	}
 	let sh = std::sync::Arc::new(Shared::open(&counter));
 	let exe = std::env::current_exe().unwrap();
 	let loops = ctx.tier.pick(60u64, 300);
@@ -484,6 +496,8 @@ fn report_c18(rep: &mut Report, msgs: &[String], desc: &str, case_seed: u64, var
 			"still_locked_after_drop"
 		} else if m.contains("files changed") {
 			"refused_open_changed_files"
+		} else if m.contains("creation race") {
+			"creation_race_damaged_database"
 		} else if m.contains("instead of a lock error") {
 			"wrong_error"
 		} else {
@@ -495,4 +509,174 @@ fn report_c18(rep: &mut Report, msgs: &[String], desc: &str, case_seed: u64, var
 			J::obj().set("case", J::s(desc.to_string())).set("case_seed", J::i(case_seed)).set("variant", J::i(variant)),
 		);
 	}
+}
+
+/// Several threads call `open_or_create` on a directory that holds no database yet, at the same
+/// moment. Exactly one handle may come alive; every other attempt fails with the lock error and
+/// changes nothing: what the winner commits must be there after its drop and a reopen.
+fn creation_race(ctx: &Ctx, rep: &mut Report, work: &Path, rng: &mut Rng, msgs: &mut Vec<String>) {
+	for round in 0..ctx.tier.pick(6u64, 30) {
+		let dir = work.join(format!("fresh-{}", round));
+		let _ = std::fs::remove_dir_all(&dir);
+		if rng.chance(1, 2) {
+			std::fs::create_dir_all(&dir).unwrap();
+		}
+		let n = 4usize;
+		let barrier = std::sync::Arc::new(std::sync::Barrier::new(n));
+		let live = std::sync::Arc::new(AtomicU64::new(0));
+		let release = std::sync::Arc::new(std::sync::atomic::AtomicBool::new(false));
+		let mut hs = vec![];
+		for t in 0..n {
+			let dir = dir.clone();
+			let barrier = barrier.clone();
+			let live = live.clone();
+			let release = release.clone();
+			hs.push(std::thread::spawn(move || -> (Option<String>, bool) {
+				let mut c = cfg();
+				c.background = t % 2 == 0;
+				let opts = c.options(&dir);
+				barrier.wait();
+				match Db::open_or_create(&opts) {
+					Ok(db) => {
+						let before = live.fetch_add(1, Ordering::SeqCst);
+						if before != 0 {
+							std::mem::forget(db);
+							return (Some("creation race: open_or_create returned Ok while another handle was alive (other handle)".to_string()), false)
+						}
+						let r = db.commit_changes(vec![(0u8, Operation::Set(b"made by the winner".to_vec(), vec![0x5A; 77]))]);
+						// stay alive until every other attempt has returned
+						while !release.load(Ordering::SeqCst) {
+							std::thread::sleep(Duration::from_micros(200));
+						}
+						live.fetch_sub(1, Ordering::SeqCst);
+						drop(db);
+						(r.err().map(|e| format!("creation race: the winner's commit failed: {}", e)), true)
+					},
+					Err(Error::Locked(_)) => (None, false),
+					Err(e) => (Some(format!("creation race: open_or_create failed with {} instead of a lock error", e)), false),
+				}
+			}));
+		}
+		// the losers return at once; the winner waits for `release`
+		let t0 = Instant::now();
+		while hs.iter().filter(|h| h.is_finished()).count() < n - 1 && t0.elapsed() < Duration::from_secs(20) {
+			std::thread::sleep(Duration::from_micros(300));
+		}
+		release.store(true, Ordering::SeqCst);
+		let mut winners = 0;
+		for h in hs {
+			let (m, won) = h.join().expect("racer");
+			if let Some(m) = m {
+				msgs.push(m);
+			}
+			if won {
+				winners += 1;
+			}
+		}
+		ctx.progress();
+		rep.count("creation_races", 1);
+		rep.count("open_attempts", n as u64);
+		rep.evaluations += n as u64;
+		if !msgs.is_empty() {
+			return
+		}
+		if winners != 1 {
+			msgs.push(format!("creation race: {} of {} simultaneous open_or_create calls succeeded", winners, n));
+			return
+		}
+		let mut c = cfg();
+		c.background = false;
+		match Db::open(&c.options(&dir)) {
+			Ok(db) => {
+				let got = db.get(0, b"made by the winner").ok().flatten();
+				if got.as_deref() != Some(&[0x5Au8; 77][..]) {
+					msgs.push("creation race: the value committed by the only live handle is gone after its drop and a reopen (a refused open_or_create changed the database)".to_string());
+				}
+				drop(db);
+			},
+			Err(e) => msgs.push(format!("creation race: the database cannot be reopened afterwards: {}", e)),
+		}
+		rep.evaluations += 1;
+		if !msgs.is_empty() {
+			return
+		}
+	}
+}
+
+/// One thread opens, holds briefly and drops, again and again, while others retry `open` in a
+/// tight loop (a client waiting for the previous owner to wind down): an attempt that lands in
+/// the middle of a drop must either fail or be the one new owner.
+fn spinning_retries(ctx: &Ctx, rep: &mut Report, work: &Path, rng: &mut Rng, msgs: &mut Vec<String>) {
+	let dir = work.join("spin");
+	{
+		let mut c = cfg();
+		c.background = false;
+		let db = Db::open_or_create(&c.options(&dir)).expect("create");
+		db.commit_changes(vec![(0u8, Operation::Set(b"k".to_vec(), vec![1; 30]))]).unwrap();
+		drop(db);
+	}
+	let live = std::sync::Arc::new(AtomicU64::new(0));
+	let stop = std::sync::Arc::new(std::sync::atomic::AtomicBool::new(false));
+	let viol: std::sync::Arc<std::sync::Mutex<Vec<String>>> = Default::default();
+	let attempts = std::sync::Arc::new(AtomicU64::new(0));
+	let takeovers = std::sync::Arc::new(AtomicU64::new(0));
+	let mut hs = vec![];
+	for t in 0..4u64 {
+		let dir = dir.clone();
+		let live = live.clone();
+		let stop = stop.clone();
+		let viol = viol.clone();
+		let attempts = attempts.clone();
+		let takeovers = takeovers.clone();
+		let mut r = rng.derive(900 + t);
+		hs.push(std::thread::spawn(move || {
+			let mut c = cfg();
+			c.background = t % 2 == 1;
+			let opts = c.options(&dir);
+			while !stop.load(Ordering::SeqCst) {
+				attempts.fetch_add(1, Ordering::Relaxed);
+				let res = if r.chance(1, 4) { Db::open_read_only(&opts) } else { Db::open(&opts) };
+				match res {
+					Ok(db) => {
+						let before = live.fetch_add(1, Ordering::SeqCst);
+						if before != 0 {
+							viol.lock().unwrap().push(format!("spinning retry: open returned Ok while {} other handle(s) were alive (other handle)", before));
+							stop.store(true, Ordering::SeqCst);
+							std::mem::forget(db);
+							return
+						}
+						takeovers.fetch_add(1, Ordering::Relaxed);
+						std::thread::sleep(Duration::from_micros(r.range(100, 1500)));
+						live.fetch_sub(1, Ordering::SeqCst);
+						if stop.load(Ordering::SeqCst) {
+							std::mem::forget(db);
+							return
+						}
+						drop(db);
+					},
+					Err(Error::Locked(_)) => {},
+					Err(e) => {
+						viol.lock().unwrap().push(format!("spinning retry: open failed with {} instead of a lock error", e));
+						stop.store(true, Ordering::SeqCst);
+						return
+					},
+				}
+			}
+		}));
+	}
+	let t0 = Instant::now();
+	let run = Duration::from_millis(ctx.tier.pick(1500, 6000));
+	while t0.elapsed() < run && !stop.load(Ordering::SeqCst) {
+		std::thread::sleep(Duration::from_millis(20));
+		ctx.progress();
+	}
+	stop.store(true, Ordering::SeqCst);
+	for h in hs {
+		let _ = h.join();
+	}
+	rep.count("spinning_open_attempts", attempts.load(Ordering::Relaxed));
+	rep.count("open_attempts", attempts.load(Ordering::Relaxed));
+	rep.count("spinning_takeovers", takeovers.load(Ordering::Relaxed));
+	rep.evaluations += attempts.load(Ordering::Relaxed);
+	msgs.extend(viol.lock().unwrap().drain(..));
 }
